@@ -102,3 +102,18 @@ per_depth! {
   28 => ring_iso_d28, ring_rt_d28, ring_ctr_d28; 29 => ring_iso_d29, ring_rt_d29, ring_ctr_d29;
 }
 #[kani::proof] #[kani::unwind(33)] fn ring_canary_d02() { ring_canary(2) }
+
+/// Link between the two back ends: `Layer::new` establishes, for every depth 0..=29, the well-formedness predicate `wf()` that
+/// the Verus contracts of to_ring / from_ring (contracts/verus_ring.py) take as a precondition on the reduced `Layer`.
+#[kani::proof]
+fn layer_new_wf() {
+  let d: u8 = kani::any();
+  kani::assume(d <= 29);
+  let l = Layer::new(d);
+  assert!(l.depth == d, "C10 wf: depth");
+  assert!(l.nside as u64 == 1u64 << d, "C10 wf: nside == 2^depth");
+  assert!(l.n_hash == 12u64 << (2 * d), "C10 wf: n_hash == 12 * 4^depth");
+  assert!(l.nside_remainder_mask == (1u64 << d) - 1, "C10 wf: nside_remainder_mask == nside - 1");
+  kani::cover!(d == 0, "depth 0");
+  kani::cover!(d == 29, "depth 29");
+}
